@@ -79,11 +79,18 @@ ssize_t __wrap_read(int fd, void *buf, size_t count) {
 }
 int __wrap_select(int nfds, fd_set *r, fd_set *w, fd_set *e, struct timeval *tv) {
   if (in_req && send_mode && w && !r && http_fd >= 0 && FD_ISSET(http_fd, w) && tv) {
-    int n = (int)strlen(send_dec); char d = n ? send_dec[send_pos < n ? send_pos : n - 1] : 't';
+    int n = (int)strlen(send_dec); char d;
     long ms = tv->tv_sec * 1000 + tv->tv_usec / 1000;
-    if (send_pos < n) send_pos++;
+    /* decisions: t = time-out, r = peer drained completely, d = peer reads 1 KiB; the last one repeats,
+       a trailing '*' makes the whole string repeat */
+    if (n > 1 && send_dec[n - 1] == '*') { d = send_dec[send_pos % (n - 1)]; send_pos++; }
+    else { d = n ? send_dec[send_pos < n ? send_pos : n - 1] : 't'; if (send_pos < n) send_pos++; }
     vslice = ms;
     if (d == 'r') { drain_peer(); vwait_run = 0; return 1; }
+    if (d == 'd') { unsigned char tmp[1024]; recv(peer_fd, tmp, sizeof tmp, MSG_DONTWAIT); vwait_run = 0;
+      if (vwait_total > 50 * (send_maxwait > 0 ? send_maxwait : 1000) + 50 * ms) {
+        printf("slowdrip\nslice %ld\nvwait %ld\n", vslice, vwait_total); fflush(stdout); _exit(0); }
+      return 1; }
     /* time-out: virtual time advances by the full slice; as on Linux the timeval is left at zero */
     vwait_total += ms; vwait_run += ms;
     tv->tv_sec = 0; tv->tv_usec = 0; FD_ZERO(w);
